@@ -434,13 +434,31 @@ def _guess_failures(n, seed):
             want = al * L + (1 - al) * A / (np.sqrt(2 * np.pi) * sg) * np.exp(-(xs - mu) ** 2 / (2 * sg * sg))
         if not np.allclose(y.values, want, rtol=1e-12, atol=1e-300) or y.unit != sc.Unit('counts'):
             fails.append({'id': f'case{i}', 'index': i, 'seed': seed, 'problem': 'value differs from the closed form (numpy, rtol 1e-12)'})
+            continue
+        # "results carry the units implied by the parameters": the same physical parameter given in another unit of the same dimension
+        # (scale or location in mm with x in m, amplitude in counts*mm) is either refused or gives the same physical result -- never the
+        # bare number taken in the unit of x
+        for which, unit in (('scale', 'mm'), ('loc', 'mm'), ('amplitude', 'counts*mm'), ('scale', 'km')):
+            other = dict(params)
+            other[which] = params[which].to(unit=unit)
+            try:
+                y2 = m(xv, **{pf + k: v for k, v in other.items()})
+            except Exception:  # noqa: BLE001, S112
+                continue        # a refusal
+            try:
+                same = np.allclose(y2.to(unit='counts').values, y.values, rtol=1e-9, atol=1e-300)
+            except Exception:  # noqa: BLE001
+                same = False
+            if not same:
+                fails.append({'id': f'case{i}', 'index': i, 'seed': seed, 'problem': f'{which} given in {unit} (x in m) is accepted and the result (unit {y2.unit}) is not the model for that physical {which}'})
+                break
     return fails[:3]
 
 
 def bounded_guess(chk):
     n = 90 if chk.tier == 'quick' else 3000
     fails = _guess_failures(n, 21 + chk.seed)
-    chk.bounded_check('real-evaluation-and-guess', 'real models with real scipp: closed forms (numpy), guess() keys and units', f'{n} random cases', n, fails)
+    chk.bounded_check('real-evaluation-and-guess', 'real models with real scipp: closed forms (numpy), guess() keys and units, a parameter re-expressed in another unit of its dimension refused or honoured', f'{n} random cases', n, fails)
 
 
 def replay(rec):
